@@ -11,38 +11,57 @@ variable {classes : List (String × Conv)} {enums : List (String × List Val)}
 `T.into_data(x)`: `RTSafe` without unions and dataclasses -/
 def RTSafeD (c : Conv) : Bool := RTSafe c && plainConv c
 
-/-- the untyped serialiser (any sufficient fuel) produces what the typed one does -/
+/-- the untyped serialiser (any sufficient fuel) produces what the typed one does; and a typed value of
+this fragment is never an instance of a scalar subclass (`.sub`), the one shape on which the element
+serialiser `dynElem` of the dict cases departs from the untyped serialiser -/
 def AgreeD (E : Ext) (classes : List (String × Conv)) (enums : List (String × List Val))
     (dyn : Val → Except Exc Val) (N : Nat) (c : Conv) : Prop :=
-  ∀ x, x.depth < N → HasType E c x → ∀ n, x.depth < n → intoDynF E classes enums n x = intoC E dyn c x
+  ∀ x, x.depth < N → HasType E c x →
+    (∀ cn b, x ≠ .sub cn b) ∧ ∀ n, x.depth < n → intoDynF E classes enums n x = intoC E dyn c x
+
+/-- off the instances of scalar subclasses `dynElem` is the untyped serialiser it wraps -/
+theorem dynElem_notSub {f : Val → Except Exc Val} {x : Val} (h : ∀ cn b, x ≠ .sub cn b) :
+    dynElem E f x = f x := by
+  cases x <;> first | rfl | exact absurd rfl (h _ _)
+
+/-- off the instances of scalar subclasses the element serialiser of `DictConverter.into_data` is the
+element converter's own -/
+theorem anyOr_notSub (c : Conv) {x : Val} (h : ∀ cn b, x ≠ .sub cn b) :
+    anyOr E dyn c (intoC E dyn c) x = intoC E dyn c x := by
+  cases c <;> try rfl
+  cases x <;> first | rfl | exact absurd rfl (h _ _)
 
 theorem agree_of_id {c} (h : IdGood E dyn N c) : AgreeD E classes enums dyn N c := by
-  intro x hx ht n hn
+  intro x hx ht
   obtain ⟨h1, h2, _⟩ := h x hx ht
-  rw [h1, intoDynF_data E classes enums n x h2 hn]
+  refine ⟨?_, fun n hn => by rw [h1, intoDynF_data E classes enums n x h2 hn]⟩
+  rintro cn b rfl
+  simp [Val.isData] at h2
 
 theorem agree_strRow (hS : ScalarRT E) {ty allowed ser e ep} (hrow : strRow ty allowed ser = true) :
     AgreeD E classes enums dyn N (.scalar ty allowed ser e ep) := by
   simp only [strRow, Bool.and_eq_true, beq_iff_eq] at hrow
   obtain ⟨⟨rfl, hty⟩, _⟩ := hrow
-  rintro x _ ⟨v, hv, ht⟩ n hn
+  rintro x _ ⟨v, hv, ht⟩
   simp only [tryC] at ht
   split at ht
   · have hc := guardTry_ok_inv ht
     rw [builtinCtor_strTy hty hv] at hc
     obtain ⟨r, rfl⟩ := hS.call_opaque _ _ _ hty hc
+    refine ⟨fun _ _ h => (by cases h), fun n hn => ?_⟩
     cases n with
     | zero => cases hn
     | succ n => simp only [intoDynF, intoC, scalarSer]
   · cases ht
 
 theorem agree_datetime (hS : ScalarRT E) {ty} : AgreeD E classes enums dyn N (.datetime ty) := by
-  rintro x _ ⟨v, hv, ht⟩ n hn
+  rintro x _ ⟨v, hv, ht⟩
   simp only [tryC] at ht
   cases v with
   | str s =>
     simp only [] at ht
     obtain ⟨r, rfl⟩ := hS.iso_opaque _ _ _ (guardTry_ok_inv ht)
+    refine ⟨fun _ _ h => (by cases h), fun n hn => ?_⟩
     cases n with
     | zero => cases hn
     | succ n => simp only [intoDynF, intoC]
@@ -50,26 +69,29 @@ theorem agree_datetime (hS : ScalarRT E) {ty} : AgreeD E classes enums dyn N (.d
 
 theorem agree_cond {inner c fmt} (h : AgreeD E classes enums dyn N inner) :
     AgreeD E classes enums dyn N (.cond inner c fmt) := by
-  rintro x hx ⟨v, hv, ht⟩ n hn
+  rintro x hx ⟨v, hv, ht⟩
   simp only [tryC] at ht
   obtain ⟨y, hy, ht2⟩ := bind_ok_inv ht
   obtain ⟨rfl, _⟩ := cond_inv ht2
   simp only [intoC]
-  exact h y hx ⟨v, hv, hy⟩ n hn
+  exact h y hx ⟨v, hv, hy⟩
 
 theorem agree_seq {kind vc} (hk : seqKinds.contains kind = true) (h : AgreeD E classes enums dyn N vc) :
     AgreeD E classes enums dyn N (.seq kind vc) := by
-  rintro x hx ⟨v, hv, ht⟩ n hn
+  rintro x hx ⟨v, hv, ht⟩
   obtain ⟨_, xs, hm, hctor⟩ := trySeq_inv ht
   have helem : ∀ y ∈ xs, HasType E vc y := fun y hy => by
     obtain ⟨u, hu, hf⟩ := mapMO_ok_mem hm y hy
     exact ⟨u, Val.isData_seqItems hv u hu, hf⟩
+  refine ⟨?_, fun n hn => ?_⟩
+  · rcases seqCtor_cases hk hctor with ⟨_, rfl⟩ | ⟨_, rfl⟩ | ⟨_, rfl⟩ | ⟨_, rfl, _⟩ | ⟨_, rfl, _⟩ <;>
+      (intro _ _ h; cases h)
   cases n with
   | zero => cases hn
   | succ n =>
     have core : (∀ y ∈ x.payload, y ∈ xs) →
         exMapM (intoDynF E classes enums n) x.payload = exMapM (intoC E dyn vc) x.payload := fun hpay =>
-      exMapM_congr _ (fun y hy => h y (Nat.lt_trans (Val.depth_payload hy) hx) (helem y (hpay y hy)) n
+      exMapM_congr _ (fun y hy => (h y (Nat.lt_trans (Val.depth_payload hy) hx) (helem y (hpay y hy))).2 n
         (Nat.lt_of_lt_of_le (Val.depth_payload hy) (Nat.le_of_lt_succ hn)))
     rcases seqCtor_cases hk hctor with ⟨rfl, rfl⟩ | ⟨rfl, rfl⟩ | ⟨rfl, rfl⟩ | ⟨rfl, rfl, _⟩ | ⟨rfl, rfl, _⟩
     · have := core (fun y hy => hy)
@@ -102,8 +124,8 @@ theorem agree_zip (n : Nat) : ∀ (cs : List Conv) (vs xs : List Val),
   | c :: cs, u :: vs, xs, hg, hv, hl, hz, hd => by
     simp only [tryCs] at hz
     obtain ⟨y, ys, hy, hys, rfl⟩ := zipMO_cons_inv hz
-    have h1 := hg c (List.mem_cons_self ..) y (hd y (List.mem_cons_self ..)).1
-      ⟨u, hv u (List.mem_cons_self ..), hy⟩ n (hd y (List.mem_cons_self ..)).2
+    have h1 := (hg c (List.mem_cons_self ..) y (hd y (List.mem_cons_self ..)).1
+      ⟨u, hv u (List.mem_cons_self ..), hy⟩).2 n (hd y (List.mem_cons_self ..)).2
     have h2 := agree_zip n cs vs ys (fun c' hc' => hg c' (List.mem_cons_of_mem _ hc'))
       (fun u' hu' => hv u' (List.mem_cons_of_mem _ hu')) (by simpa using hl) hys
       (fun y' hy' => hd y' (List.mem_cons_of_mem _ hy'))
@@ -111,8 +133,9 @@ theorem agree_zip (n : Nat) : ∀ (cs : List Conv) (vs xs : List Val),
 
 theorem agree_tuple {cs} (h : AgreeDs E classes enums dyn N cs) :
     AgreeD E classes enums dyn N (.tuple cs) := by
-  rintro x hx ⟨v, hv, ht⟩ n hn
+  rintro x hx ⟨v, hv, ht⟩
   obtain ⟨_, hl, xs, hz, rfl⟩ := tryTuple_inv ht
+  refine ⟨fun _ _ h => (by cases h), fun n hn => ?_⟩
   cases n with
   | zero => cases hn
   | succ n =>
@@ -123,14 +146,17 @@ theorem agree_tuple {cs} (h : AgreeDs E classes enums dyn N cs) :
 
 theorem intoDynF_map (n : Nat) (kind : String) (D : List (Val × Val)) :
     intoDynF E classes enums (n + 1) (dictCtor kind D) =
-      match exMapM (dictOne (intoDynF E classes enums n) (intoDynF E classes enums n)) D with
+      match exMapM (dictOne (dynElem E (intoDynF E classes enums n)) (dynElem E (intoDynF E classes enums n))) D with
       | .error e => .error e
       | .ok kvs' => (buildDict kvs').map .dict := by
   unfold dictCtor; split <;> (simp only [intoDynF]; rfl)
 
+theorem dictCtor_notSub (kind : String) (D : List (Val × Val)) : ∀ cn b, dictCtor kind D ≠ .sub cn b := by
+  intro cn b; unfold dictCtor; split <;> (intro h; cases h)
+
 theorem agree_dict {kind k vc} (hk : AgreeD E classes enums dyn N k) (hv : AgreeD E classes enums dyn N vc) :
     AgreeD E classes enums dyn N (.dict kind k vc) := by
-  rintro x hx ⟨v, hvd, ht⟩ n hn
+  rintro x hx ⟨v, hvd, ht⟩
   rw [tryC_dict] at ht
   cases hm : v.isMap with
   | false => simp [hm] at ht
@@ -146,14 +172,16 @@ theorem agree_dict {kind k vc} (hk : AgreeD E classes enums dyn N k) (hv : Agree
       obtain ⟨_, rfl⟩ := buildDict_ok_inv (guardTry_ok_inv hb)
       obtain ⟨hmap, hitems⟩ := dictCtor_map kind (Val.dictOfPairs kvs)
       have hsrc := dictStep_mem hmm
+      refine ⟨dictCtor_notSub kind _, fun n hn => ?_⟩
       cases n with
       | zero => cases hn
       | succ n =>
         rw [intoDynF_map, intoC_dict]
         simp only [hmap, hitems, Bool.not_true, Bool.false_eq_true, if_false]
-        have hcongr : exMapM (dictOne (intoDynF E classes enums n) (intoDynF E classes enums n))
+        have hcongr : exMapM (dictOne (dynElem E (intoDynF E classes enums n)) (dynElem E (intoDynF E classes enums n)))
             (Val.dictOfPairs kvs) =
-            exMapM (dictOne (intoC E dyn k) (intoC E dyn vc)) (Val.dictOfPairs kvs) := by
+            exMapM (dictOne (anyOr E dyn k (intoC E dyn k)) (anyOr E dyn vc (intoC E dyn vc)))
+              (Val.dictOfPairs kvs) := by
           apply exMapM_congr
           intro p hp
           have hdp := Val.depth_mapItems (x := dictCtor kind (Val.dictOfPairs kvs)) (p := p)
@@ -162,13 +190,14 @@ theorem agree_dict {kind k vc} (hk : AgreeD E classes enums dyn N k) (hv : Agree
           obtain ⟨u1, hu1, t1, _⟩ := hsrc q1 hq1
           obtain ⟨u2, hu2, _, t2⟩ := hsrc q2 hq2
           rw [e1] at t1; rw [e2] at t2
-          have a1 := hk p.1 (Nat.lt_trans hdp.1 hx) ⟨u1.1, (Val.isData_mapItems hvd u1 hu1).1, t1⟩ n
-            (Nat.lt_of_lt_of_le hdp.1 (Nat.le_of_lt_succ hn))
-          have a2 := hv p.2 (Nat.lt_trans hdp.2 hx) ⟨u2.2, (Val.isData_mapItems hvd u2 hu2).2, t2⟩ n
-            (Nat.lt_of_lt_of_le hdp.2 (Nat.le_of_lt_succ hn))
-          simp only [dictOne, a1, a2]
+          obtain ⟨s1, a1⟩ := hk p.1 (Nat.lt_trans hdp.1 hx) ⟨u1.1, (Val.isData_mapItems hvd u1 hu1).1, t1⟩
+          obtain ⟨s2, a2⟩ := hv p.2 (Nat.lt_trans hdp.2 hx) ⟨u2.2, (Val.isData_mapItems hvd u2 hu2).2, t2⟩
+          have a1 := a1 n (Nat.lt_of_lt_of_le hdp.1 (Nat.le_of_lt_succ hn))
+          have a2 := a2 n (Nat.lt_of_lt_of_le hdp.2 (Nat.le_of_lt_succ hn))
+          simp only [dictOne, dynElem_notSub s1, dynElem_notSub s2, anyOr_notSub k s1, anyOr_notSub vc s2, a1, a2]
         rw [hcongr]
-        cases exMapM (dictOne (intoC E dyn k) (intoC E dyn vc)) (Val.dictOfPairs kvs) <;> rfl
+        cases exMapM (dictOne (anyOr E dyn k (intoC E dyn k)) (anyOr E dyn vc (intoC E dyn vc)))
+          (Val.dictOfPairs kvs) <;> rfl
 
 mutual
 theorem RTSafeD.agree (hS : ScalarRT E) (hD : DynId dyn N) : (c : Conv) → RTSafe c = true →
